@@ -6,6 +6,7 @@ import (
 	"io"
 	"net"
 	"os"
+	"path/filepath"
 	"sync"
 
 	"verif/harness/wire"
@@ -18,13 +19,33 @@ var (
 	sharedLog *go9p.Logger
 )
 
+var ufsCount int
+
+// rootSpelling: the exported directory as an administrator might write it -- the same directory, not always in
+// canonical form (every fourth server gets the canonical spelling's neighbours in turn).
+func rootSpelling(root string, n int) string {
+	dir, base := filepath.Dir(root), filepath.Base(root)
+	switch n % 8 {
+	case 1:
+		return root + "/"
+	case 3:
+		return root + "/."
+	case 5:
+		return dir + "//" + base
+	case 7:
+		return root + "/../" + base
+	}
+	return root
+}
+
 // StartUfs starts a real go9p.Ufs exporting root.
 func StartUfs(root string, dotu bool) *go9p.Ufs {
 	logOnce.Do(func() { sharedLog = go9p.NewLogger(64) })
 	u := new(go9p.Ufs)
 	u.Dotu = dotu
 	u.Id = "ufstree"
-	u.Root = root
+	ufsCount++
+	u.Root = rootSpelling(root, ufsCount)
 	u.Log = sharedLog
 	u.Msize = 65536 + go9p.IOHDRSZ
 	if !u.Start(u) {
